@@ -7,7 +7,7 @@
      another worker under policy rewrite) is a deviation switch: TLC produces its witness.
  (B) entry sequences drawn from the model's initial states are concretised (random types/encodings,
      Parallel 1..8, target.db, filters, sync and restore mode) and run through the REAL syncRDBFile /
-     restoreRDBFile against the model Redis while a scheduler decides which connection's pending
+     restoreRDBFile / CmdRestore.Main (1-3 input files, 1-3 file workers) against the model Redis while a scheduler decides which connection's pending
      command executes next (random / starve-one-connection / free); the per-connection command log and
      the final keyspace are judged by TLC (FsTrace.tla: right db per command, one writer and at most
      one successful RESTORE per key, every unfiltered key equal to the source value, failures reported)."""
@@ -24,10 +24,13 @@ KINDS = ["string", "list", "set", "zset", "hash"]
 
 def concretise(rnd, cid, entries, tdb):
     """abstract FullSync entries -> fs driver scenario"""
-    mode = rnd.choice(["sync", "sync", "restore"])
+    mode = rnd.choice(["sync", "sync", "restore", "restore-main"])
     cfg = {"mode": mode, "parallel": rnd.choice([1, 2, 2, 3, 4, 8]), "tdb": (rnd.choice([1, 3]) if tdb else -1), "key_exists": "none",
            "target": {"version": "5.0.7"}, "sched": rnd.choice(["free", "random", "random", "victim"]), "fkey_black": ["no:"],
            "big_threshold": rnd.choice([0, 0, 40])}
+    if mode == "restore-main":
+        # the whole restore command (CmdRestore.Main): the entries spread over 1-3 input files, 1-3 file workers
+        cfg["files"], cfg["rdb_parallel"] = rnd.choice([1, 2, 3]), rnd.choice([1, 2, 3])
     if rnd.random() < 0.3:
         cfg["fdb_black"] = ["2"]
     out, pre = [], []
